@@ -617,7 +617,7 @@ func runLoopSearch(c *chk.Ctx, cfg *loop.Config, p loopParams, pool *lwPool, scr
 						}
 					}
 					path := res.path(id)
-					r.Violate(p.prop+":not-converged:"+class, "converges", fmt.Sprintf("[%s] from the state after %s, %d fair rounds (3 scrapes per shard, idle expiry, cycle) do not reach the converged state: %s", cfg.Name, pathString(path), p.maxRounds, fr.Reason), int64(len(path)),
+					r.Violate(p.prop+":not-converged:"+class+cfg.SigTag, "converges", fmt.Sprintf("[%s] from the state after %s, %d fair rounds (3 scrapes per shard, idle expiry, cycle) do not reach the converged state: %s", cfg.Name, pathString(path), p.maxRounds, fr.Reason), int64(len(path)),
 						&loopReplay{Property: p.prop, Clause: "converges", Config: cfg, Path: path, State: res.nodes[id].key, Detail: fr.Reason})
 					for _, k := range fr.Visited {
 						memo[k] = -1
@@ -773,7 +773,7 @@ func fairLoops(c *chk.Ctx, cfg *loop.Config, p loopParams, res *loopResult) {
 		}
 		sort.Strings(evs)
 		d := fmt.Sprintf("[%s] a strongly fair non-converging loop of %d state(s) is reachable by %s; inside it every enabled progress event (%s) can be taken without leaving", cfg.Name, len(ms), pathString(path), strings.Join(evs, ","))
-		r.Violate(p.prop+":fair-loop", "converges", d, int64(len(path)), &loopReplay{Property: p.prop, Clause: "converges", Config: cfg, Path: path, State: res.nodes[v].key, Detail: d})
+		r.Violate(p.prop+":fair-loop"+cfg.SigTag, "converges", d, int64(len(path)), &loopReplay{Property: p.prop, Clause: "converges", Config: cfg, Path: path, State: res.nodes[v].key, Detail: d})
 	}
 }
 
